@@ -298,7 +298,11 @@ CLAIMED = {
        "for EVERY fractional offset s in [0, 1), its four weights sum to one, are (0,1,0,0) at a node and reproduce linear and quadratic functions "
        "(polynomial identities discharged by z3); MultitaskKernel.forward = K_x[i,j] K_t[a,b] at row i*T+a, column j*T+b (interleaved Kronecker "
        "layout; symbolic n1, n2, T, batch; diag = its diagonal); IndexKernel: B B^T + diag(v) looked up at the task indices; LCMKernel = the sum "
-       "of its components, each evaluated once on the inputs. Bounded tier (not counted): Index / Hadamard / Multitask / LCM / Grid (Toeplitz on and "
+       "of its components, each evaluated once on the inputs; InducingPointKernel (Cholesky factor and triangular solve as callee contracts): the factorised "
+       "matrix is Kzz (upper), the inverse root is solve_triangular(U, I), k(x1, x2) = (K_x1z R)(K_x2z R)^T, in evaluation mode at x1 == x2 plus "
+       "diag(k_base(x,x) - diag Q) (clamped or not), in training mode Q itself with the trace term built from N(0, diag k_base), N(0, Q) and the "
+       "likelihood; InducingPointKernelAddedLossTerm.loss = -1/2 sum_i (Kxx_ii - Q_ii) / noise_i; Lean 4 / Mathlib lemma lean/Nystrom.lean: "
+       "(K1 U^-1)(K2 U^-1)^T = K1 (U^T U)^-1 K2^T, the Nystrom matrix; GridKernel.update_grid drops the cached K_UU (contract shared with C03). Bounded tier (not counted): Index / Hadamard / Multitask / LCM / Grid (Toeplitz on and "
        "off, ragged, up to 3-4 dims) kernels vs explicit dense formulas; InducingPointKernel = Kxz Kzz^-1 Kzx (+ documented diagonal correction), "
        "n*MLL = Titsias bound, SGPR predictive equations; KISS-GP (fixed and data-determined grids, fantasy update, setting sequences), SGPR and "
        "RFF prediction strategies vs the dense conditional of the approximate kernel matrix under Cholesky / CG, fast_pred_var, fast_pred_samples, "
